@@ -45,7 +45,9 @@ def FA(e, n):
 
 
 def VA(e, cap):
-    return {"k": "varr", "cap": cap, "e": e}
+    # wcap: the capacity of the DSDL definition (fixes the width of the length prefix); cap: the capacity of the object in memory
+    # (smaller only under the C option enable_override_variable_array_capacity with a user-reduced capacity)
+    return {"k": "varr", "cap": cap, "wcap": cap, "e": e}
 
 
 def is_comp(t):
